@@ -38,7 +38,8 @@ CHECKS["C19"] = {
              "rules, no clobbered lists), fan-out loops are keyed by the receiving endpoint with exactly one delivery per "
              "element carrying the received value, spin sends each source once to its own endpoint and polls every endpoint "
              "that has an active forwarding rule or sink whatever the state of the other table (guard evaluated for every "
-             "combination of key-present / list-non-empty), and only the registration methods write the rule tables."),
+             "combination of key-present / list-non-empty), and only the registration methods write the rule tables."
+             " R19.7: an endpoint's getData returns None or a value produced by this very receive on every path; a stored field that is not written on the path (the previous message) is never returned."),
     "note": ("Trusted: endpoints honour the CommsObject interface; real socket behaviour (shutdown on an unconnected UDP "
              "socket etc.) is not modelled."),
 }
@@ -67,7 +68,8 @@ CHECKS["C16"] = {
              "parent's distance established inside [min, max] for the current sample (no stale distance), strict-improvement "
              "choose-parent storing the compared cost, only the not-yet-inserted node is ever wired (acyclic by "
              "construction), path extraction by parent walk + goal, and a non-zero divisor in the progress display for "
-             "every budget >= 1. Numerical distances and the R-tree's nearest-neighbour answers are not decided. Also: R16.5 strict improvement is decided on must-hold facts at the re-parenting cost store (guard clauses understood); R16.8 the choose-parent scan visits every neighbour the query returned (no break/return, full range). R16.9: the spatial index stores and queries a node at the point box of its own position for each supported dimensionality; a node is inserted without a parent only under the fact that the neighbour query came back empty; the goal is appended to the path unconditionally."),
+             "every budget >= 1. Numerical distances and the R-tree's nearest-neighbour answers are not decided. Also: R16.5 strict improvement is decided on must-hold facts at the re-parenting cost store (guard clauses understood); R16.8 the choose-parent scan visits every neighbour the query returned (no break/return, full range). R16.9: the spatial index stores and queries a node at the point box of its own position for each supported dimensionality; a node is inserted without a parent only under the fact that the neighbour query came back empty; the goal is appended to the path unconditionally."
+             " R16.6: the path is read positionally (parent walk, append + reverse idiom accepted); setParent does not rewrite the stored cost (the cost is the planner's, measured with the planner's distance)."),
     "note": "Trusted: purity of caller-supplied callbacks; rtree nearest() (library).",
 }
 
@@ -80,7 +82,8 @@ CHECKS["C15"] = {
              "the box (centre, half extents), precisely the six negated strict separating-axis inequalities, with the "
              "reject-next-box / accept / default-False control skeleton and (min, max) corner storage. Exactness including "
              "boundary contact then follows from the separating-axis theorem; this is as strong as a static argument gets "
-             "here. Floating-point rounding within 1e-9 of contact is not decided. R15.4: each planner owns its obstruction list (fresh list on every constructor path, no mutable default argument or class attribute, only addObstruction writes it), so the boxes tested are the ones registered on that planner."),
+             "here. Floating-point rounding within 1e-9 of contact is not decided. R15.4: each planner owns its obstruction list (fresh list on every constructor path, no mutable default argument or class attribute, only addObstruction writes it), so the boxes tested are the ones registered on that planner."
+             " R15.3: addObstruction stores, for each axis, both corner ends (in either order, or as min/max) and appends exactly one box on every path; no registered box is dropped."),
     "note": "Trusted: separating-axis theorem for a segment and an axis-aligned box; NumPy element-wise arithmetic.",
 }
 
@@ -126,7 +129,8 @@ CHECKS["C17"] = {
              "it indexes for every value of the loop counters (affine ranges, exact unrolling of constant-trip loops), and "
              "at every kernel call site of the Python layers the extents made explicit by argument slices agree with the "
              "contract's equalities (this is what finds an i-column view passed with i+1 joint values). 'Compiled equals "
-             "interpreted' is not decided (Numba code generation is the trusted base). R17.2 is path-sensitive: a shape environment follows named slices to the kernel call. Per-joint tables of the arm passed whole (extent num_dof) are compared with sliced vectors at kernel call sites."),
+             "interpreted' is not decided (Numba code generation is the trusted base). R17.2 is path-sensitive: a shape environment follows named slices to the kernel call. Per-joint tables of the arm passed whole (extent num_dof) are compared with sliced vectors at kernel call sites."
+             " R17.1 also checks kernel-to-kernel call arguments: a slice passed to another kernel (Norm(Vs[3:5])) must have the extent that kernel's contract reads."),
     "note": "Trusted: shape contracts in sa/engine/mrspec.py (docstrings); Numba code generation; callers not analysed pass arrays that satisfy the contracts.",
 }
 
@@ -141,7 +145,8 @@ CHECKS["C05"] = {
              "FKinSpace(home, space screws, clamped theta) storing joints and pose from one vector; None-defaulted joint "
              "arguments are resolved before use; move() re-initialises from the stored original screws and local home; no state "
              "pose object is mutated through an alias; NumPy attributes used exist (an Arm can be built). Equality with the "
-             "product of exponentials to 1e-7 is not decided here (kernel: C02). Also: R05.7 the backup used by restoreOriginalEE is refreshed whenever the home tool pose is rewritten for a new base; R05.8 closure obligations on the port primitives FK reaches; the clamp of thetaProtector is decided structurally (each out-of-range side replaced by the bound it violates, guard admits every clamp)."),
+             "product of exponentials to 1e-7 is not decided here (kernel: C02). Also: R05.7 the backup used by restoreOriginalEE is refreshed whenever the home tool pose is rewritten for a new base; R05.8 closure obligations on the port primitives FK reaches; the clamp of thetaProtector is decided structurally (each out-of-range side replaced by the bound it violates, guard admits every clamp)."
+             " R05.11: pose fields that can come to share one object (the home tool pose and its backup, handed over by plain assignment in restoreOriginalEE) are never mutated in place, only rebound; an in-place writer on either makes a later restore return the changed pose."),
     "note": "Trusted: FKinSpace (C02); parameters documented as transforms are transforms; num_dof >= 1.",
 }
 
@@ -169,7 +174,8 @@ CHECKS["C07"] = {
              "with screws/home/goal/limits bound by role); the clamp block covers every joint with both bounds between update "
              "and error recomputation; IK/constrainedIK can return success only after FK(returned joints) wrote the state and "
              "leave the state coherent on every exit; the limit-respecting kernel minus its clamp equals IKinSpace (which equals "
-             "the reference). Local convergence and 'unreachable => error above tolerance' are numerical and not decided. Also: R07.6 (effects summary) no IK kernel writes the storage of the start vector it is given, so a failed solve cannot move the arm's stored joints; R07.7 closure obligations on the primitives the solvers reach."),
+             "the reference). Local convergence and 'unreachable => error above tolerance' are numerical and not decided. Also: R07.6 (effects summary) no IK kernel writes the storage of the start vector it is given, so a failed solve cannot move the arm's stored joints; R07.7 closure obligations on the primitives the solvers reach."
+             " R07.8: on the success path of IKFree the pose compared with the goal is FK of the joint vector that is returned (not the solver's residual of a clamped evaluation). R07.9: the limit-respecting kernel clamps the start vector before its first error evaluation (or every caller hands it a vector drawn inside the limits), so a solve that stops at iteration 0 cannot return joints outside the limits."),
     "note": "Trusted: FKinSpace/JacobianSpace/MatrixLog6/Adjoint (C01/C02); documented parameter roles.",
 }
 
@@ -240,7 +246,8 @@ CHECKS["C20"] = {
              "produced and appended per index of range(shape[0]) on every path, with width nd+6, precision nd below 9999 and nd "
              "forwarded through the <=4-D recursion; the dims dispatch is exhaustive; probes that raise on 0-d / shapeless "
              "objects sit inside the catch-all fallback; round() is only reached for finite |x| >= 9999. Exception freedom for "
-             "arbitrary Python objects (dynamic __str__/__format__) is NOT decided. The formatted value must be the array element itself on every path (alias-aware); locals are identified by role. R20.6: in the renderer for lists of transforms / wrenches every integer conversion of an entry is dominated by abs(x) >= 9999 and not isinf(x), so NaN and infinite entries are rendered instead of raising."),
+             "arbitrary Python objects (dynamic __str__/__format__) is NOT decided. The formatted value must be the array element itself on every path (alias-aware); locals are identified by role. R20.6: in the renderer for lists of transforms / wrenches every integer conversion of an entry is dominated by abs(x) >= 9999 and not isinf(x), so NaN and infinite entries are rendered instead of raising."
+             " R20.1 is path-based: on every path of disp the renderer receives the parameters themselves (matrix, nd, ...) or a view/reshape of them, never a value-modified copy."),
     "note": "Trusted: Python string formatting of finite floats; the stated input kinds.",
 }
 
@@ -269,7 +276,8 @@ CHECKS["C09"] = {
              "poses, local joint tables and buffers by role; the FK joint tables are re-derived whenever the plate-fixed joints are "
              "replaced (re-spun platforms solve FK for their own geometry); FK/IK/move/spinCustom end with derived state computed "
              "from exactly the stored poses, so lengths reported after FK are recomputed geometry. Convergence of the solvers to "
-             "1e-3 is numerical and not decided. R09.2 discovers class-wide every instance field that caches a function of the plate-fixed joint tables (by data dependence) and requires every writer of the tables to refresh or reset each of them on every path; kernel formulas are decided by normal-form equality with a reference implementation written from the definition. R09.5: in the Newton FK kernel the height floor applied to the iterate is at most leg_ext_min/2 (a higher floor excludes poses of flat platforms), the residual driven to zero is squared joint distance minus squared requested length, and the top joints are rotated by the current guess."),
+             "1e-3 is numerical and not decided. R09.2 discovers class-wide every instance field that caches a function of the plate-fixed joint tables (by data dependence) and requires every writer of the tables to refresh or reset each of them on every path; kernel formulas are decided by normal-form equality with a reference implementation written from the definition. R09.5: in the Newton FK kernel the height floor applied to the iterate is at most leg_ext_min/2 (a higher floor excludes poses of flat platforms), the residual driven to zero is squared joint distance minus squared requested length, and the top joints are rotated by the current guess."
+             " R09.6: the leg lengths _IKHelper hands back are a snapshot (copy) of self.lengths, so the corrective action on the stored lengths cannot rewrite the vector already returned to the caller."),
     "note": "Trusted: convergence of SPFKinSpaceR's Newton iteration and its Jacobian (not analysed numerically); the bound leg_ext_min/2 on the height floor is taken from the kernel as exercised; tokens name one pose value per path.",
 }
 
@@ -296,7 +304,8 @@ CHECKS["C11"] = {
              "joint and unit direction of the same leg, evaluated between a save and a restore of the poses; the wrench summation "
              "uses point, direction and magnitude of the same leg; the load handed to the static solve in carryMassCalc is exactly "
              "applied wrench + top plate weight + six shaft weights, motors and bottom plate only afterwards; Robot derives "
-             "jacobian() as pinv(inverseJacobian()). Derivative and equilibrium identities are numerical and not decided."),
+             "jacobian() as pinv(inverseJacobian()). Derivative and equilibrium identities are numerical and not decided."
+             " R11.4: the statics table of Robot (staticForces / staticForcesBody / their inverses) is decided in this check too: each entry is the transposed (space / body) Jacobian or its pseudo-inverse applied to the wrench payload, without a frame change of the argument."),
     "note": "Trusted: makeWrench / Wrench layout (C12); Robot statics table (C06).",
 }
 
